@@ -1196,6 +1196,50 @@ def rule_token_kinds_keep_their_class(cm, rep, rid):
     rep.minimum('values reaching number nodes', n, 1)
 
 
+def rule_format_only_on_literals(cm, rep, rid):
+    rep.rule(rid, 'in the emitter, a format string is a literal (or a constant bound to one): ``.format(..)`` / ``%`` is never '
+                  'applied to text that was put together from generated pieces, where a ``{..}`` or ``%`` that comes out of the '
+                  'source (a quoted atom) would be interpreted as a field')
+    gen = cm.templates.gen_cls if hasattr(cm, '_ts') and cm._ts is not None else cm.repo.cls('yp_generator', 'YPPythonCodeGenerator')
+    n = 0
+
+    def literal(f, e):
+        if isinstance(e, ast.Constant) and isinstance(e.value, str):
+            return True
+        if isinstance(e, ast.JoinedStr):
+            return False
+        if isinstance(e, ast.Name):
+            r = cm.repo.resolve_name(f, e.id)
+            return bool(r and r[0] == 'var' and isinstance(r[2], ast.Constant) and isinstance(r[2].value, str))
+        if isinstance(e, ast.Attribute) and is_name(e.value, 'self') and f.cls is not None:
+            for c in cm.repo.mro(f.cls):
+                v = c.class_attrs.get(e.attr)
+                if v is not None:
+                    return isinstance(v, ast.Constant) and isinstance(v.value, str)
+        return False
+    for f in cm.repo.all_functions(('yp_generator',)):
+        if f.cls is None or gen not in cm.repo.mro(f.cls) and f.cls is not gen:
+            continue
+        for x in own_nodes_ordered(f.node):
+            recv = None
+            if isinstance(x, ast.Call) and isinstance(x.func, ast.Attribute) and x.func.attr in ('format', 'format_map'):
+                recv = x.func.value
+            elif isinstance(x, ast.BinOp) and isinstance(x.op, ast.Mod) and not isinstance(x.left, (ast.Constant,)) or \
+                    (isinstance(x, ast.BinOp) and isinstance(x.op, ast.Mod) and isinstance(x.left, ast.Constant) and isinstance(x.left.value, str)):
+                recv = x.left
+            if recv is None:
+                continue
+            n += 1
+            key = '%s:%s' % (f.qname, norm(x)[:50])
+            if literal(f, recv):
+                rep.ok(rid, key, 'format string is a literal', f.loc(x))
+            else:
+                rep.violation(rid, key, 'text that already contains generated pieces (%s) is used as a format string: a quoted atom such as '
+                              '\'{name}\' or \'%%s\' in the source is interpreted as a field, and what it expands to is pasted into the '
+                              'generated Python outside any quotes' % norm(recv)[:40], f.loc(x))
+    rep.ok(rid, 'emitter', '%d format operations in the emitter examined' % n, None, nontrivial=bool(n))
+
+
 def rule_codecs_strict(cm, rep, rid):
     rep.rule(rid, 'between bytes and text nothing is lost or rewritten, and nothing depends on the process: in the compiler module '
                   'no decode/encode/open/stream call asks for a lenient error handler (errors=ignore/replace/backslashreplace..), '
